@@ -739,6 +739,13 @@ pub fn bulk_case(n: usize, k: usize, op: u8) -> Vec<(String, &'static str)> {
         }
     };
     differ(&want, &after, "source DOM", &mut problems);
+    // the descendant iterator started at a parentless instance: that instance, then its child
+    {
+        let got: Vec<String> = dom.descendants_of(orphan).map(|i| i.name.clone()).collect();
+        if got != vec!["orphan".to_owned(), "orphan-child".to_owned()] {
+            problems.push((format!("descendants_of(a parentless instance with one child) yields {:?}", got), "C09"));
+        }
+    }
     let dafter = snapshot(&dest, &dknown);
     differ(&dwant, &dafter, "destination DOM", &mut problems);
     // the subtree where it went: same referents (transfer) or an isomorphic copy (clone)
@@ -789,6 +796,25 @@ pub fn bulk_case(n: usize, k: usize, op: u8) -> Vec<(String, &'static str)> {
         }
         if bad.is_none() && map.len() != sub.len() {
             bad = Some(format!("{} instances were copied, the subtree has {}", map.len(), sub.len()));
+        }
+        if bad.is_none() {
+            // the iterator over the (parentless) copy: every instance once, parents first
+            let mut seen: std::collections::HashSet<Ref> = std::collections::HashSet::new();
+            let mut n_seen = 0usize;
+            for i in ddom.descendants_of(c) {
+                n_seen += 1;
+                if i.referent() != c && !seen.contains(&i.parent()) {
+                    problems.push((format!("descendants_of(the copy) yields {} before its parent", i.name), "C09"));
+                    break;
+                }
+                if !seen.insert(i.referent()) {
+                    problems.push((format!("descendants_of(the copy) yields {} twice", i.name), "C09"));
+                    break;
+                }
+            }
+            if n_seen != sub.len() && problems.is_empty() {
+                problems.push((format!("descendants_of(the copy) yields {} instances, the copy has {}", n_seen, sub.len()), "C09"));
+            }
         }
         if bad.is_none() {
             if ddom.get_by_ref(c).map(|i| i.parent().is_some()).unwrap_or(true) {
